@@ -216,6 +216,9 @@ func c13ProveNonEmpty(c *core.Ctx, n *c13Node, ix *ast.IndexExpr) bool {
 	f := c13Innermost(top, ix)
 	l := "len(" + f.Render(ix.X) + ")"
 	keys := []string{"eq:" + l + "==0", "lt:0<" + l, "lt:" + l + "<1", "lt:" + f.Render(ix.Index) + "<" + l}
+	good := func(st *flow.State) bool {
+		return st.Is(keys[0], flow.False) || st.Is(keys[1], flow.True) || st.Is(keys[2], flow.False) || st.Is(keys[3], flow.True)
+	}
 	states, seen := c13StatesAt(c, f, ix, flow.Config{
 		Track: func(k string) bool {
 			for _, w := range keys {
@@ -226,12 +229,12 @@ func c13ProveNonEmpty(c *core.Ctx, n *c13Node, ix *ast.IndexExpr) bool {
 			return strings.HasPrefix(k, "v:")
 		},
 		Pure: c13PureFor(f, c13BaseObj(f, ix.X)),
-	})
+	}, good)
 	if !seen {
 		return false
 	}
 	for _, st := range states {
-		if !(st.Is(keys[0], flow.False) || st.Is(keys[1], flow.True) || st.Is(keys[2], flow.False) || st.Is(keys[3], flow.True)) {
+		if !good(st) {
 			return false
 		}
 	}
@@ -430,50 +433,97 @@ func c13SizeSourceOK(c *core.Ctx, g *c13Graph, sf *c13SpecFields, caller *c13Nod
 // test `x < size` (x unsigned) / `size > 0` has succeeded on the path.
 func c13CheckAdmission(c *core.Ctx, size *types.Var) (bool, string) {
 	f := fn(c, c13CB, "CircuitBreaker", "AcquirePermission")
-	stateF := structField(c, c13CB, "CircuitBreaker", "state")
 	pkg := c.Prog.Pkg(c13CB)
-	if f == nil || stateF == nil || pkg == nil {
-		return false, "AcquirePermission / CircuitBreaker.state not found"
+	cbT := namedType(c, c13CB, "CircuitBreaker")
+	stT := namedType(c, c13CB, "State")
+	if f == nil || pkg == nil || cbT == nil || stT == nil {
+		return true, "anchor unresolved (checker error recorded)"
+	}
+	// the state field by role: the field of CircuitBreaker whose type is State
+	var stateF *types.Var
+	if st, ok := cbT.Underlying().(*types.Struct); ok {
+		for i := 0; i < st.NumFields(); i++ {
+			if types.Identical(st.Field(i).Type(), stT) {
+				if stateF != nil {
+					c.Errorf("R-C13-7: anchor: CircuitBreaker has two fields of type State")
+					return true, "anchor ambiguous (checker error recorded)"
+				}
+				stateF = st.Field(i)
+			}
+		}
 	}
 	half, ok := pkg.Types.Scope().Lookup("StateHalfOpen").(*types.Const)
-	if !ok {
-		return false, "constant StateHalfOpen not found"
+	if stateF == nil || !ok {
+		c.Errorf("R-C13-7: anchor: CircuitBreaker state field / StateHalfOpen not found")
+		return true, "anchor unresolved (checker error recorded)"
 	}
 	halfVal := half.Val().ExactString()
-	node := &c13Node{pkg: f.Pkg, decl: f.Node.(*ast.FuncDecl), body: f.Body}
-	// rendering of the state field and the receiver
-	statePrefix := ""
+	// the functions whose bodies may be interpreted in place, each with its own node (locals)
+	var nodes []*c13Node
+	for _, h := range reach(f, 4) {
+		if fd, ok := h.Node.(*ast.FuncDecl); ok {
+			nodes = append(nodes, &c13Node{pkg: h.Pkg, decl: fd, body: fd.Body})
+		}
+	}
+	nodeAt := func(x ast.Node) *c13Node {
+		for _, n := range nodes {
+			if contains(n.body, x) {
+				return n
+			}
+		}
+		return nodes[0]
+	}
+	// renderings of the state field (the receiver may be renamed in a helper: any rendering)
+	isStateFact := func(fact string) (string, bool) {
+		// "eq:<recv>.<field>==<const>=T"
+		if !strings.HasPrefix(fact, "eq:") || !strings.HasSuffix(fact, "=T") {
+			return "", false
+		}
+		body := fact[3 : len(fact)-2]
+		i := strings.LastIndex(body, "==")
+		if i < 0 || !strings.HasSuffix(body[:i], "."+stateF.Name()) {
+			return "", false
+		}
+		return body[i+2:], true
+	}
 	var base types.Object
 	ast.Inspect(f.Body, func(x ast.Node) bool {
-		if sel, ok := x.(*ast.SelectorExpr); ok && statePrefix == "" && c13FieldOf(node, sel) == stateF {
-			statePrefix = "eq:" + f.Render(sel) + "=="
+		if sel, ok := x.(*ast.SelectorExpr); ok && base == nil && c13FieldOf(nodes[0], sel) == stateF {
 			base = c13BaseObj(f, sel)
 		}
 		return true
 	})
-	if statePrefix == "" {
-		return false, "AcquirePermission does not read CircuitBreaker.state"
-	}
 	const ev = "ev:size-positive"
 	res := analyze(c, f, flow.Config{
-		Track: func(k string) bool { return strings.HasPrefix(k, statePrefix) || strings.HasPrefix(k, "v:") },
-		Pure:  c13PureFor(f, base),
+		Inline: inlineSamePkg(f),
+		Track: func(k string) bool {
+			return strings.Contains(k, "."+stateF.Name()+"==") || strings.HasPrefix(k, "v:") || strings.HasPrefix(k, "call:") || strings.HasPrefix(k, "eq:")
+		},
+		Pure: c13PureFor(f, base),
 		AfterAssume: func(st *flow.State, cond ast.Expr, outcome bool) {
-			if c13ShowsPositive(node, cond, outcome, size) {
+			if c13ShowsPositive(nodeAt(cond), cond, outcome, size) {
 				st.Set(ev, flow.True)
 			}
 		},
 	})
 	if res == nil {
-		return false, "AcquirePermission could not be analysed"
+		return true, "AcquirePermission could not be analysed (checker error recorded)"
 	}
 	admits := 0
 	for _, ex := range res.Exits {
 		if ex.Kind != flow.ExitReturn || ex.Return == nil || len(ex.Return.Results) == 0 {
 			continue
 		}
-		tv := f.Info.Types[ex.Return.Results[0]]
+		r0 := ast.Unparen(ex.Return.Results[0])
+		tv := f.Info.Types[r0]
 		if tv.Value != nil && tv.Value.ExactString() == "false" {
+			continue
+		}
+		// a boolean variable / inlined call known false on this path does not admit
+		if id, ok := r0.(*ast.Ident); ok && ex.State.Is(f.VarKey(id), flow.False) {
+			continue
+		}
+		if call, ok := r0.(*ast.CallExpr); ok && ex.State.Is(f.CallKey(call), flow.False) {
 			continue
 		}
 		admits++
@@ -482,18 +532,19 @@ func c13CheckAdmission(c *core.Ctx, size *types.Var) (bool, string) {
 		}
 		other := false
 		for _, fact := range ex.State.Facts() {
-			if strings.HasPrefix(fact, statePrefix) && strings.HasSuffix(fact, "=T") && !strings.HasSuffix(fact, "=="+halfVal+"=T") {
+			if v, ok := isStateFact(fact); ok && v != halfVal {
 				other = true
 			}
 		}
 		if !other {
-			return false, sprintf("AcquirePermission admits a call at %s on a path where the circuit breaker may be half-open and no strict test has shown %s > 0: the result is pushed into a window of %s buckets — index out of range when it is 0", pos(c, ex.Return), size.Name(), size.Name())
+			return false, sprintf("AcquirePermission admits a call at %s on a path where the circuit breaker may be half-open and no strict test has shown %s > 0: the result is pushed into a window of %s buckets — index out of range when it is 0", pos(c, ex.Ret()), size.Name(), size.Name())
 		}
 	}
 	if admits == 0 {
-		return false, "AcquirePermission has no admitting return"
+		c.Errorf("R-C13-7: AcquirePermission has no admitting return (cannot judge)")
+		return true, "no admitting return found (checker error recorded)"
 	}
-	return true, sprintf("calls are admitted in half-open state only after a strict test against %s", size.Name())
+	return true, sprintf("calls are admitted in half-open state only after a strict test against %s (inlined: %s)", size.Name(), strings.Join(res.Inlined, ", "))
 }
 
 // c13ShowsPositive: the branch outcome implies that the field `size` is > 0.
